@@ -1,0 +1,27 @@
+package common
+
+import (
+	"github.com/protolambda/ztyp/bitfields"
+	"github.com/protolambda/ztyp/codec"
+)
+
+// ReadBitList decodes an SSZ bitlist (including its delimiter bit) of at most bitLimit bits from the
+// remaining scope of dr.
+//
+// It replaces codec.DecodingReader.BitList, which bounds the byte length by ceil(bitLimit/8) and so
+// refuses a full bitlist whenever bitLimit is a multiple of 8 (the delimiter bit then needs one more byte).
+func ReadBitList(dr *codec.DecodingReader, dst *[]byte, bitLimit uint64) error {
+	byteLen := dr.Scope()
+	if err := bitfields.BitlistCheckByteLen(byteLen, bitLimit); err != nil {
+		return err
+	}
+	if uint64(cap(*dst)) < byteLen {
+		*dst = make([]byte, byteLen, byteLen)
+	} else {
+		*dst = (*dst)[:byteLen]
+	}
+	if _, err := dr.Read(*dst); err != nil {
+		return err
+	}
+	return bitfields.BitlistCheck(*dst, bitLimit)
+}
